@@ -804,6 +804,22 @@ class Known(VerificationStrategy):
         return f"Known({self.prefs},{self.nletters})"
 
 
+class DepVer(Known):
+    """a verification strategy whose rule has a child: the verified class is declared to depend on the class of all
+    words with its patterns (allowed by VerificationStrategy.decomposition_function)"""
+
+    def decomposition_function(self, c):
+        if self.verified(c):
+            return (PW("", c.patterns, c.alphabet, False, ()),)
+        return None
+
+    def formal_step(self):
+        return "known, depending on the unrestricted class " + ",".join(map(repr, self.prefs))
+
+    def __repr__(self):
+        return f"DepVer({self.prefs},{self.nletters})"
+
+
 class ParentExpansion(StrategyFactory):
     """for a class with a one-letter prefix, yield the expansion *rule* of the class with the empty prefix
     (a ready rule whose parent is not the expanded class)"""
